@@ -270,6 +270,13 @@ def run_case(sys_, case, idx, seed):
         tau = call["q"] * TAU
         dt = -1j * tau if imag else tau
         before = st.dense(cur)
+        before_sv = None
+        if form == "mps" and ci > 0:
+            try:
+                rows = cur.copy().calc_bond_singular_values()
+                before_sv = min(float(np.min(r_[r_ > 1e-14])) for r_ in rows if np.any(r_ > 1e-14))
+            except Exception:
+                before_sv = None
         cfg_before = cur.evolve_config
         try:
             adaptive_here = bool(c["adaptive"]) and scheme == c["scheme"] and scheme in ("pc_taylor", "pc_rk", "ps", "ps2")
@@ -320,6 +327,15 @@ def run_case(sys_, case, idx, seed):
         out["meas"].append({"scheme": scheme, "p": p, "tau": tau, "err": err, "adaptive": bool(c["adaptive"]) and scheme == c["scheme"], "solver": c["solver"],
                             "imag": imag, "td": td, "form": form, "full_bond": full_bond, "call": ci, "gauge": c["gauge"], "cmf": c["cmf"]})
         b1 = error_bound(scheme, c, tau, td, form, full_bond, ncalls=1)
+        if ci > 0 and scheme in ("cmf", "vmf", "mu_vmf") and form == "mps" and b1 is not None:
+            # the regularised one-site schemes are accurate only while the smallest Schmidt value of their INPUT stays away from the
+            # regularisation scale; after an earlier call (imaginary time in particular) that has to be re-checked
+            try:
+                sv_in = before_sv
+                if sv_in is not None and sv_in < 2e-2:
+                    b1 = None
+            except NameError:
+                pass
         allowed = None if (b1 is None or allowed is None) else allowed + b1
         bound = allowed
         if bound is not None and err > bound:
